@@ -108,3 +108,12 @@ def run(tier, seed, mutant=None, only_validate=False):
 def canaries(tier, seed):
     r = run("quick", seed, mutant="rate_limit_no_reserve", only_validate=True)
     return [dict(name="mutant:rate_limit_no_reserve", detected=bool(r.violations), rejected=len(r.violations))]
+
+
+TRACE_MODULE = "AsyncRateLimitTrace"
+consts_of = lambda c: dict(NE=c['max_elems'], Interval=amod.seconds(c['interval']), SyncCons=c['cons'][0] == 'sync', MaxTime=100000000, Retain=True)
+
+
+def replay(v):
+    import sys as _s
+    return amod.replay_node(_s.modules[__name__], v)
